@@ -73,6 +73,12 @@ def check(prog, run):
                     for fp in fps:
                         npaths += 1
                         check_path(prog, run, fp, fspec, name, file, line)
+            # the same call made twice on one facade: what the first passed must not reach the second's CDB
+            hist = history_for(prog, name, fspec, setname, methods)
+            for sa in sas:
+                for fp in eval_facade(prog, name, fspec, setname, "none", sa=sa, check_condition="never", after_all=True, history=hist):
+                    npaths += 1
+                    check_path(prog, run, fp, fspec, name, file, line)
         check_docstring(prog, run, name, fspec, fn, file)
     check_unmarshall_wrapper(prog, run)
     check_get_opcode(prog, run)
@@ -83,10 +89,40 @@ def check(prog, run):
     run.floor("paths", npaths, 300)
 
 
+def layout_keys(prog, fspec):
+    out = set()
+    names = [fspec["cls"].split(":")[1]] + list(fspec["extra"].get("by_service_action", {}).values())
+    for cn in names:
+        t = prog.cls(fspec["cls"].split(":")[0], cn).lookup("_cdb_bits")
+        if t and isinstance(t[0], dict):
+            out |= set(k for k in t[0] if isinstance(k, str))
+    return out - {"opcode"}
+
+
+def history_for(prog, name, fspec, setname, methods):
+    """earlier calls on the same facade whose CDB layouts name, between them, every field name of this method's layout
+    (greedy cover, from the library's own tables): what an earlier command passed under a name must not reach this CDB"""
+    want = layout_keys(prog, fspec)
+    cands = []
+    for other, ospec in reffacade.FACADE.items():
+        if other == name or other not in methods or setname not in sets_offering(prog, ospec):
+            continue
+        sas = sorted(ospec["extra"].get("by_service_action", {None: None}), key=lambda x: (x is None, x))
+        cands.append((other, ospec, sas[-1], layout_keys(prog, ospec)))
+    hist = []
+    while want:
+        best = max(cands, key=lambda c: len(c[3] & want), default=None)
+        if best is None or not (best[3] & want):
+            break
+        hist.append(best[:3])
+        want -= best[3]
+    return hist
+
+
 def check_path(prog, run, fp, fspec, name, file, line):
     I = prog.I
     p = fp.path
-    c = "SCSI.%s on %s" % (name, fp.setname)
+    c = "SCSI.%s on %s%s" % (name, fp.setname, " (second call)" if fp.after_all else "")
     calls = fp.events("external-call")
     sg = [(i, e) for i, e in calls if e["name"] == "sgio.execute"]
     decodes = fp.events("decode")
